@@ -43,6 +43,7 @@ struct Op {
 	int key = -1, input = -1;
 	uint64_t start = 0, count = 0;
 	std::vector<int> fault;  // 1-based allocation-request ordinals inside this call that fail
+	std::vector<int> pfault; // 1-based ordinals of the page-protection requests (mprotect) inside this call that are refused
 	int64_t env = -1;        // MXCSR value on entry (-1: simulator default 0x1F80)
 	int heap = 0;            // seam::HP_* bits
 	bool expect_null = false;
